@@ -225,7 +225,9 @@ func expectFor(g *model.GenPkg, f *model.Field) (accExpect, error) {
 		T := tq(f.Var.Type())
 		e.has = []string{"return (len(" + L + ") != 0)", "return (len(" + L + ") > 0)"}
 		e.clear = []string{L + " = nil"}
-		e.get = []string{"if (len(" + L + ") == 0) {return " + ctor + "(new(" + tq(vt) + "))}; return " + ctor + "(" + V + "{" + vf + ": &" + L + "})"}
+		e.get = []string{"if (len(" + L + ") == 0) {return " + ctor + "(new(" + tq(vt) + "))}; return " + ctor + "(" + V + "{" + vf + ": &" + L + "})",
+			// one view value, bound to the field only when the field has elements
+			"%t1 := new(" + tq(vt) + "); if (len(" + L + ") != 0) {%t1." + vf + " = &" + L + "}; return " + ctor + "(%t1)"}
 		accessor := ".List()"
 		if fd.IsMap() {
 			accessor = ".Map()"
@@ -645,8 +647,8 @@ func runRange(c *core.Ctx, g *model.GenPkg, m *model.Msg, fdVars map[types.Objec
 	}
 	used := make([]bool, len(blocks))
 	for i, b := range blocks {
-		if b == "if (x == nil) {x = new("+tq(m.Fast)+")}" {
-			used[i] = true // nil-receiver prologue: a nil message ranges like the empty message
+		if b == "if (x == nil) {x = new("+tq(m.Fast)+")}" || b == "if (x == nil) {return }" {
+			used[i] = true // nil-receiver prologue: a nil message ranges like the empty message — nothing is visited
 		}
 	}
 	take := func(alts []string) (string, bool) {
@@ -954,8 +956,55 @@ func runViews(c *core.Ctx, g *model.GenPkg) {
 					c.Undec("ACC.view", con, "not canonicalisable: "+cn.err, pos(c, g, fd.Pos()), src)
 					continue
 				}
+				// `return runtime.H(x.list)`: a one-parameter helper of the runtime package stands for its body
+				if !in(got, exp[n]) {
+					if inl, ok := runtimeHelperBody(c, got, "x."+vf); ok {
+						got = inl
+					}
+				}
 				c.Check(in(got, exp[n]), "ACC.view", con, got, fmt.Sprintf("method does: %s ; expected: %s", clip(got, 400), clip(exp[n][0], 400)), pos(c, g, fd.Pos()), src)
 			}
 		}
 	}
+}
+
+
+// runtimeHelperBody: for a method whose canonical form is `return runtime.H(<arg>)`, the canonical body of H (a function
+// of the repository's runtime package with one parameter and nothing but that parameter free) with the parameter
+// replaced by the argument.
+func runtimeHelperBody(c *core.Ctx, got, arg string) (string, bool) {
+	const pre = "return runtime."
+	if !strings.HasPrefix(got, pre) || !strings.HasSuffix(got, "("+arg+")") {
+		return "", false
+	}
+	name := got[len(pre) : len(got)-len(arg)-2]
+	rp := c.Pkg("runtime")
+	if rp == nil || strings.ContainsAny(name, "(). ") {
+		return "", false
+	}
+	fd := core.FuncDecls(rp)[name]
+	if fd == nil || fd.Body == nil || fd.Recv != nil || len(fd.Type.Params.List) != 1 || len(fd.Type.Params.List[0].Names) != 1 {
+		return "", false
+	}
+	cn := newCanon(rp.TypesInfo, fd)
+	po := rp.TypesInfo.Defs[fd.Type.Params.List[0].Names[0]]
+	cn.names[po] = arg
+	body := cn.stmts(fd.Body.List)
+	if cn.err != "" {
+		return "", false
+	}
+	// nothing of the helper's own package may be referred to
+	free := false
+	ast.Inspect(fd.Body, func(n ast.Node) bool {
+		if id, ok := n.(*ast.Ident); ok {
+			if o := rp.TypesInfo.Uses[id]; o != nil && o.Pkg() == rp.Types && o.Parent() == rp.Types.Scope() {
+				free = true
+			}
+		}
+		return true
+	})
+	if free {
+		return "", false
+	}
+	return body, true
 }
